@@ -374,7 +374,7 @@ impl Prop for LcProp {
                 "event alphabet and bounds as listed under coverage.families; timestamps/receptions outside the alphabet are not explored".into(),
                 "lifecycle ids are canonicalised by order of first appearance (global id counter)".into(),
             ],
-            budget_s: (40, 1500),
+            budget_s: (90, 1500),
             workers: 0,
             required_landmarks: vec!["ids_consumed_not_listed(merge)", "multi_lc_one_ecu", "two_ecus", "delivered_before_final_state", "resume_lc", "resume_of_resume", "resume_start_before_origin_start"],
         }
